@@ -101,6 +101,11 @@ class SolRec : public mp::SOLHandler {
       }
     }
     if (st.mode == "seterr" && rd.Size() > 0) rd.SetError(NLW2_SOLRead_Bad_Suffix, "consumer refuses the rest");
+    // a consumer that reads the whole vector and then rejects it (an index out of its range, a value it cannot use), in its own words
+    if (st.mode == "seterr_end" && rd.Size() == 0 && rd.ReadResult() == NLW2_SOLRead_OK) {
+      rd.SetError(NLW2_SOLRead_Bad_Suffix, consumer_message(st.k));
+      if (r.consumer_rejected.empty()) { r.consumer_rejected = consumer_message(st.k); r.consumer_rejected_code = (int)NLW2_SOLRead_Bad_Suffix; }
+    }
     v.final_status = (int)rd.ReadResult();
     v.left = rd.Size();
     return v;
@@ -110,6 +115,12 @@ class SolRec : public mp::SOLHandler {
 
 // ---- the same recording consumer as a C callback table (api/c/sol-handler-c.h): the library wraps it in
 // NLW2_SOLHandler_C_Impl, so the wrapper's own code (option copying, suffix info, the NLW2_Read* helpers) is a party too
+}  // namespace
+const char* consumer_message(int k) {
+  static const char* msgs[] = {"consumer rejects the vector", "index 100% out of range", "value of '%s' not usable: %s%s%s%n", "bad element %d (%5.2f) %s", "{} {0} {:>10}", "rejected"};
+  return msgs[(unsigned)k % 6];
+}
+namespace {
 struct CRec {
   const SolReadConfig* cfg; SolReadResult* r; size_t step = 0;
   void fail(const char* cls, const std::string& key, const std::string& detail) {
